@@ -144,7 +144,8 @@ func H_C01_switchover() {
 	}
 	local := ha[len(ha)-1] // the manager runs on the last replica's host
 	cfg := verifConfig(local)
-	mode := verifnd.Choose("cfg.mode", verifnd.Param("modes", 3)) // 0 semi-sync, 1 plain async, 2 async mode with allowed lag
+	mlo := verifnd.Param("mode_lo", 0)
+	mode := mlo + verifnd.Choose("cfg.mode", verifnd.Param("modes", 3)-mlo) // 0 semi-sync, 1 plain async, 2 async mode with allowed lag
 	cfg.SemiSync = mode == 0
 	wcfg := 1 + verifnd.Choose("cfg.wait_count", verifnd.Param("max_w", 1))
 	cfg.RplSemiSyncMasterWaitForSlaveCount = wcfg
